@@ -9,6 +9,7 @@ returns the same reads".
 -/
 namespace C11
 open StateDB
+open C12 (Bytes)
 
 /-- **state_rollback_exact** — a transaction that fails during block execution (its receipt carries
 an error log) leaves, in its receipt, exactly the KVs of the fee-only transaction, and every later
@@ -197,5 +198,121 @@ theorem group_all_or_fee (env : Env) (hfr : env.forkExecRollback = true) (h0 : e
           exact pM.rollback_SEq
         rw [← hreset]
         exact this.runS_eq ops
+
+
+/-! ### local data -/
+
+/-- the mechanism of finding S-C11, as a fact about the model of `executor.LocalDB`:
+`Rollback` keeps the buffered writes. -/
+theorem localdb_rollback_keeps_kvs (l : LocalDB) : l.rollback.kvs = l.kvs := by
+  unfold LocalDB.rollback LocalDB.resetTx
+  cases l.hasbegin <;> rfl
+
+def laterSame (a b : Option (List Receipt × List (List Obs))) : Prop :=
+  match a, b with
+  | some (rs, obs), some (rs', obs') => rs.tail = rs'.tail ∧ obs.tail = obs'.tail
+  | some _, none => False
+  | none, _ => True
+
+def headFailed (a : Option (List Receipt × List (List Obs))) : Prop :=
+  match a with
+  | some (r :: _, _) => r.failed = true
+  | _ => False
+
+instance (a b : Option (List Receipt × List (List Obs))) : Decidable (laterSame a b) := by
+  unfold laterSame; split <;> infer_instance
+instance (a : Option (List Receipt × List (List Obs))) : Decidable (headFailed a) := by
+  unfold headFailed; split <;> infer_instance
+
+/-- The property text for local data, at block level: if the first transaction of a block fails, every
+later transaction produces the same receipt and observes the same state **and local** reads as in the
+block where that transaction only paid its fee. -/
+def LocalRollbackExact : Prop :=
+  ∀ (env : Env) (store : List (Bytes × Val)) (main : List (Bytes × Bytes)) (t : Tx) (post : List TxUnit),
+    env.forkExecRollback = true →
+    headFailed (runBlock env store main (.single t :: post)) →
+    laterSame (runBlock env store main (.single t :: post)) (runBlock env store main (.single (feeOnly t) :: post))
+
+namespace Witness
+/-- "LODB-vfb-k" -/
+def kB : Bytes := [76, 79, 68, 66, 45, 118, 102, 98, 45, 107]
+def env0 : Env := { cfg := { isPara := false, title := [], forkExecKey := true },
+                    allowUser := synthAllowUser, registry := fullRegistry }
+/-- a vfb (ExecLocalSameTime) transaction whose ExecLocal writes a local key directly, then fails -/
+def t1 : Tx := { acctKey := [1], fee := 1, execer := [118, 102, 98], execOps := [], localOps := [.hidL kB [7], .fail] }
+/-- a later vfb transaction listing the prefix -/
+def t2 : Tx := { acctKey := [1], fee := 1, execer := [118, 102, 98], execOps := [.listL kB], localOps := [] }
+def store0 : List (Bytes × Val) := [([1], .acct 10)]
+end Witness
+
+/-- **S-C11**: the full statement is false of the model (and of the code: the same block is replayed on
+the real executor by corpus/C11/s-c11.ops): `LocalDB.Rollback` does not drop the buffered `kvs`, the
+next `save()` flushes them, and the later transaction lists the failed transaction's write. -/
+theorem local_rollback_exact_full_false : ¬ LocalRollbackExact := by
+  intro h
+  exact absurd (h Witness.env0 Witness.store0 [] Witness.t1 [.single Witness.t2] rfl (by decide)) (by decide)
+
+/-- **local_rollback_exact_partial** — added hypothesis: the failing transaction runs on a driver that is
+*not* ExecLocalSameTime (its ExecLocal runs only when the block is added) and ForkLocalDBAccess is
+active.  Then the LocalDB after the failed transaction is *identical* (all caches, the buffered
+writes and the remote layered store) to the LocalDB after the fee-only transaction. -/
+theorem local_rollback_exact_partial (env : Env) (hfr : env.forkExecRollback = true)
+    (hfa : env.forkLocalDBAccess = true)
+    (st : St) (tx : Tx) (d : Drv) (hd : loadDriver env tx.execer = some d) (hs : d.sameTime = false)
+    (r : Receipt) (obs : List Obs) (st' : St)
+    (h : execTx env st tx = .done [r] [obs] st') (hf : r.failed = true) :
+    ∃ rF stF, execTx env st (feeOnly tx) = .done [rF] [[]] stF ∧ st'.ldb = stF.ldb := by
+  have he : (feeOnly tx).execer = tx.execer := rfl
+  have hfee : execFee env st (feeOnly tx) = execFee env st tx := rfl
+  have hsame : isExecLocalSameTime env tx.execer = false := by unfold isExecLocalSameTime; rw [hd]; exact hs
+  unfold execTx at h ⊢
+  rw [he, hfee]
+  split at h
+  · rename_i hname
+    simp only [hname, if_true]
+    injection h with h1 h2 h3
+    subst h3
+    exact ⟨_, _, rfl, rfl⟩
+  · rename_i hname
+    simp only [hname, if_false]
+    cases hfe : execFee env st tx with
+    | panic => rw [hfe] at h; cases h
+    | err e st1 =>
+      rw [hfe] at h
+      simp only at h ⊢
+      injection h with h1 h2 h3
+      subst h3
+      exact ⟨_, _, rfl, rfl⟩
+    | ok feelog st1 =>
+      rw [hfe] at h
+      simp only at h ⊢
+      cases hA : execTxOne env (st1.begin env) feelog tx with
+      | blockPanic => rw [hA] at h; cases h
+      | ok r2 st2 obs2 =>
+        rw [hA] at h
+        simp only at h
+        injection h with h1 _ _
+        injection h1 with h1 _
+        subst h1
+        have := execTxOne_ok_not_failed env _ feelog tx _ _ _ (execFee_ok_not_failed env st tx feelog st1 hfe) hA
+        rw [this] at hf; cases hf
+      | failed r2 st2 obs2 =>
+        rw [hA] at h
+        simp only at h
+        injection h with h1 _ h3
+        subst h3
+        obtain ⟨stX, hB⟩ := execTxOne_feeOnly env (st1.begin env) feelog tx d hd
+        rw [hB]
+        simp only
+        refine ⟨_, _, rfl, ?_⟩
+        have e2 := execTxOne_failed_state_ordinary env _ feelog tx _ _ _ hsame hA
+        have eX := execTxOne_failed_state_ordinary env _ feelog (feeOnly tx) _ _ _ hsame hB
+        have l2 := execPhase_ldb_ordinary env (st1.begin env).startTx tx d hd hs hfa
+        have lX := execPhase_ldb_ordinary env (st1.begin env).startTx (feeOnly tx) d hd hs hfa
+        have : st2.ldb = stX.ldb := by rw [e2, eX, l2, lX]
+        simp only [St.rollback, hfr, if_true, this]
+
+/-- non-vacuity of `local_rollback_exact_partial`: a vfa (ordinary driver) transaction that fails. -/
+example : ∃ d, loadDriver Witness.env0 [118, 102, 97] = some d ∧ d.sameTime = false := ⟨_, rfl, rfl⟩
 
 end C11
